@@ -404,3 +404,18 @@ func Flush() {
 	}
 	_ = os.WriteFile(filepath.Join(outDir, "nt.hashes"), buf, 0o644)
 }
+
+// MentionsPos reports whether a diagnostic names the file and the given line and column: either in the usual
+// file:line:column form or spelled out (line N ... column M / col M).
+func MentionsPos(msg, file string, line, col int) bool {
+	if strings.Contains(msg, fmt.Sprintf("%s:%d:%d", file, line, col)) {
+		return true
+	}
+	if !strings.Contains(msg, file) {
+		return false
+	}
+	l := strings.ToLower(msg)
+	hasLine := strings.Contains(l, fmt.Sprintf("line %d", line)) || strings.Contains(l, fmt.Sprintf("line: %d", line))
+	hasCol := strings.Contains(l, fmt.Sprintf("column %d", col)) || strings.Contains(l, fmt.Sprintf("col %d", col)) || strings.Contains(l, fmt.Sprintf("column: %d", col))
+	return hasLine && hasCol
+}
